@@ -14,6 +14,14 @@ the sources' data sizes).  model/SettingsRenderTie.v [rcheck] compares the metho
 render actually used and whether the size warning was issued with SettingsRender.rtrace
 (model) and SettingsRender.spec_rtrace (the documented rule on the history alone).
 
+Render REQUESTS BY ROUTE ("s": "rd" with "route": "fmt" format() / "still" draw(animate=False) /
+"anim" draw(animate=True) / "iter" an ImageIterator run to its end; "m": per-call method or None;
+"others": other style arguments): the driver reports one row per rendered FRAME (animated draws
+captured on a write-recording StringIO, sleep a no-op); model/SettingsRouteTie.v [qcheck] judges
+the per-frame list against SettingsRoute.qtrace (the keyword dictionary through the hops of the
+route) and SettingsRoute.spec_qtrace (every frame of every route is a render with the request's
+per-call method).
+
 Set operations carry Python VALUES of the universe of model/SettingsVal.v ("val": None, strings
 incl. empty / padded / differently-cased / foreign names, ints, bools, floats incl. nan / inf,
 bytes, tuples, lists, other sized containers, other objects of either truth value): valid and
@@ -1277,6 +1285,13 @@ def run(ctx):
                 "on any class (a subclass first; with the recorded flags dropped) and instance creations, before / "
                 "between / after the set / unset operations; after every step every class and instance is read, a "
                 "new instance is read and rendered, the other settings are compared with their values at the start. "
+                "RENDER REQUESTS BY ROUTE (corpus + random, forests of 1-4 classes, 1-3 instances, both styles): "
+                "format(), draw(animate=False), draw(animate=True) and an ImageIterator run to its end, each with no "
+                "per-call method or any of the style's methods and with or without other style arguments (z_index, mix, "
+                "compress), on animated GIF / APNG files, PIL images opened from them and static sources, interleaved "
+                "with render-method operations at every level (and limit operations on iterm2); the draws are captured "
+                "on a write-recording StringIO with sleep() a no-op and EVERY frame is decoded into the method used; "
+                "the per-frame list is judged against SettingsRoute.qtrace and spec_qtrace.  "
                 "Non-trivial: >= 2 classes, >= 3 ops, a class-level set and some unset (detection cases: >= 2 classes, "
                 ">= 3 steps, a class-level set and a detection step); distinct by full case hash.",
         "samples": [describe(c) for c in cases[:1] + cases[len(CORPUS):len(CORPUS) + 1] + cases[ncorpus:ncorpus + 2]
@@ -1297,7 +1312,9 @@ def run(ctx):
             "Python equality of bool and int (True == 1): a bool is accepted where an int is documented",
             "str.lower() maps no code point outside A-Z onto letters of the render-method names (checked over all "
             "code points of the running Python by the driver's probe at every run)",
-            "a source's 'animated' flag and data size are facts about the file (PIL), inputs of the model",
+            "a source's 'animated' flag, data size and number of frames are facts about the file (PIL), inputs of the model",
+            "requests by route: kitty as version 0.30.0, iterm2 as wezterm; repeat=1, cached=False; one write() to stdout "
+            "that contains an image transmission = one rendered frame",
             "support detection: the terminal is represented by six identities (what get_terminal_name_version() returns "
             "and what the kitty graphics query is answered); SettingsDetect.detects (the conclusion of the detection body "
             "per style and identity) is compared with the real is_supported() at run time (model side of the judgement); "
